@@ -42,9 +42,9 @@ Definition c03_cfg : config :=
      startup_may_fire := false; shutdown_may_fire := false |}.
 Example C03_ex_schedule :
   exists s, run (step c03_cfg) (init c03_cfg)
-              [LLaunch 0; LRunStore 0; LRunCall 0; LPoll 0 false; LPoll 0 true; LGateDecide 0; LLaunch 1; LRunCall 1] = Some s
-            /\ obs_trace obs [LLaunch 0; LRunStore 0; LRunCall 0; LPoll 0 false; LPoll 0 true; LGateDecide 0; LLaunch 1; LRunCall 1]
-               = [ERunCall 0; EPoll 0 false; EPoll 0 true; ERunCall 1].
+              [LRunEnter; LRunEntered; LLaunch 0; LRunStore 0; LRunCall 0; LPoll 0 false; LPoll 0 true; LGateDecide 0; LLaunch 1; LRunCall 1] = Some s
+            /\ obs_trace obs [LRunEnter; LRunEntered; LLaunch 0; LRunStore 0; LRunCall 0; LPoll 0 false; LPoll 0 true; LGateDecide 0; LLaunch 1; LRunCall 1]
+               = [ERunEnter; ERunCall 0; EPoll 0 false; EPoll 0 true; ERunCall 1].
 Proof. eexists. split; vm_compute; reflexivity. Qed.
 (* ... and the monitor rejects a trace in which the second Run starts before readiness *)
 Example C03_ex_rejects : c03_gate c03_cfg [ERunCall 0; EPoll 0 false; ERunCall 1] = false.
@@ -82,7 +82,7 @@ Print Assumptions C03_pending_quiescent.
 
 (* non-vacuity: runnable 0 became ready but failed before the gate looked: the gate does not open *)
 Definition c03_pend_sched : list label :=
-  [LLaunch 0; LRunStore 0; LRunCall 0; LMonSub 0; LMonRecv 0; LPollBegin 0; LRunRet 0 (Some (7, false)); LErrSend 0; LQuiet;
+  [LRunEnter; LRunEntered; LLaunch 0; LRunStore 0; LRunCall 0; LMonSub 0; LMonRecv 0; LPollBegin 0; LRunRet 0 (Some (7, false)); LErrSend 0; LQuiet;
    LPoll 0 true].
 Example C03_ex_pending_gate :
   exists s s', run (step pend_cfg) (init pend_cfg) c03_pend_sched = Some s /\
